@@ -50,6 +50,9 @@ pub struct Reports {
     pub c11: Report,
     pub c12: Report,
     pub c13: Report,
+    /// C20, pool-side clauses: the ids the chain reports to the pool as dropped, and the proposal
+    /// view of a node that runs a tx-pool / block assembler
+    pub c20: Report,
 }
 
 /// Consensus flavour of a session. `SmallBytes`: `max_block_bytes` holds only a handful of
@@ -165,7 +168,7 @@ fn run_sharded(args: &Args) -> i32 {
             Ok(st) => st.code().unwrap_or(2),
             Err(_) => 2,
         };
-        for id in ["C11", "C12", "C13"] {
+        for id in ["C11", "C12", "C13", "C20"] {
             let f = dir.join(format!("{id}.json"));
             if f.exists() {
                 let _ = std::fs::rename(&f, out.join(format!("{id}.part-{k}.json")));
@@ -190,6 +193,7 @@ pub fn run(args: &Args) -> i32 {
         c11: mk("C11", "random pool operation sequences on a real tx-pool service (submit over tx DAGs, RBF, remove, expire, size eviction, blocks, reorgs, template mining); after every operation the dump of the pool (taken under its lock) is judged by recomputation; distinct = pool link-graph shapes (sorted (status, #parents, #children, ancestors_count) tuples) seen at check time"),
         c12: mk("C12", "after every tip change (extension or reorg of depth 1..w_far+3) and pool quiescence the pool is compared with the RefChain main chain (committed / dead / unknown inputs, header deps, re-add completeness via test_accept_tx, stage vs proposal window, reorg notification log); directed histories: dep user pooled while the pooled spender of the dep cell is committed, submissions parked before the pool lock across a tip change that kills their input / dep / commits them; distinct = (fork depth, attached, pool size, stage histogram)"),
         c13: mk("C13", "block templates requested after every operation (and by a poller racing with updates) are sealed and run through the node's own full verification (header, block, non-contextual txs, contextual on a dropped store transaction); a fraction is mined on N and on a second node; sessions with a small max_block_bytes (templates filled late by already-proposed transactions, then uncle candidates / new proposals) and with max_block_cycles of 2.5 / 3.5 transactions (child-pays-for-parent packages next to independent transactions); distinct = (tip, #txs, #proposals, #uncles, epoch position)"),
+        c20: mk("C20", "on a node with tx-pool and block assembler: at every tip change the ids the chain service reports to the pool as dropped (hook H5 notification log) must be exactly set(old tip) minus set(new tip) of the model window, one notification per published tip, and the proposal view of the published snapshot must equal the model window; distinct = (old tip, new tip, #dropped)"),
     };
     let mut rng = Rng::new(args.seed ^ 0x9001);
     let sessions = args.get_u64("sessions", args.tier.pick(12, 200));
@@ -226,6 +230,9 @@ pub fn run(args: &Args) -> i32 {
     r.c12.require("obs.readd_candidates", 1);
     r.c12.require("obs.dep_user_pooled_while_pooled_spender_committed", 6);
     r.c12.require("obs.race.submit_held_across_tip_change", 6);
+    r.c20.require("obs.dropped_id_reports", 3);
+    r.c20.require("obs.dropped_id_reports_nonempty", 1);
+    r.c20.require("obs.views_checked", 3);
     r.c13.require("templates_verified", 5);
     r.c13.require("templates_with_txs", 1);
     r.c13.require("obs.late_fill.templates_after_uncle_or_proposal_update", 3);
@@ -236,7 +243,8 @@ pub fn run(args: &Args) -> i32 {
     r.c12.assume("a submission parked at hook point pool::before_submit_lock (H5) holds no pool lock: the point sits right before with_tx_pool_write_lock in submit_entry; the hold is a gate released by the engine once get_tx_pool_info reports the new tip");
     r.c13.assume("the block assembler digests its update messages asynchronously: after late updates the engine polls until the template's work id is stable for a few polls (bounded) before judging; every template taken is judged whenever it is taken");
     let mut code = 0;
-    for (id, rep) in [("C11", &r.c11), ("C12", &r.c12), ("C13", &r.c13)] {
+    r.c20.assume("the dropped ids are read from the reorg notification log kept by hook H5 inside the tx-pool service (what update_tx_pool_for_reorg received), the view from Shared::snapshot()");
+    for (id, rep) in [("C11", &r.c11), ("C12", &r.c12), ("C13", &r.c13), ("C20", &r.c20)] {
         if args.wants(id) {
             code = code.max(rep.finish(None));
         }
@@ -1338,8 +1346,9 @@ impl Sess {
         let main: HashSet<H> = st.chain.iter().cloned().collect();
         let mut new_causes: Vec<((ProposalShortId, H), &'static str)> = vec![];
         let known_causes = self.dead_cause.clone();
-        // transactions committed in the blocks this tip change detached
-        let detached_now: HashSet<H> = detached.iter().flat_map(|x| rc.get(x).block.transactions().into_iter().skip(1)).map(|t| h(&t.hash())).collect();
+        // transactions committed in the blocks this tip change detached (cellbases included: a
+        // pooled spender of a detached block's cellbase output loses its input for good)
+        let detached_now: HashSet<H> = detached.iter().flat_map(|x| rc.get(x).block.transactions().into_iter()).map(|t| h(&t.hash())).collect();
         // pooled (before) families of the ids the chain reported as dropped from the window
         let dropped_family: HashSet<ProposalShortId> = {
             let by_pre: HashMap<ProposalShortId, &VerifEntry> = pre.entries.iter().map(|e| (e.id.clone(), e)).collect();
@@ -1502,10 +1511,38 @@ impl Sess {
             let want: BTreeSet<String> = old_set.difference(&new_set).map(id_hex).collect();
             let got: BTreeSet<String> = n.detached_proposal_ids.iter().map(id_hex).collect();
             r.c12.count("obs.reorg_notifications");
+            r.c20.eval();
+            r.c20.count("obs.dropped_id_reports");
+            if !want.is_empty() {
+                r.c20.count("obs.dropped_id_reports_nonempty");
+            }
+            r.c20.distinct(vbase::fnv1a(format!("{}{}{}", hx(&cur), hx(&nt), want.len()).as_bytes()));
             if want != got {
                 r.c12.violation("reorg_notification.dropped_ids_differ_from_window", format!("tip {} -> {}: reported dropped ids {:?}, ids that left the window {:?}", hx(&cur), hx(&nt), got, want), w(json!({})));
+                r.c20.violation("proposal_view.dropped_ids_differ_from_window@pool_notification", format!("tip {} -> {}: ids reported to the pool as dropped {:?}, ids that left the committable set of the model window {:?}", hx(&cur), hx(&nt), got, want), w(json!({"detached_blocks": det.len(), "attached_blocks": att.len()})));
             }
             cur = nt;
+        }
+        // C20: the proposal view of the published snapshot of this node (it runs a pool and an
+        // assembler) against the model window of the tip the snapshot names
+        {
+            let snap = self.n.shared.snapshot();
+            let st = h(&snap.tip_hash());
+            if rc.contains(&st) {
+                let (mset, mgap) = rc.window_sets(&st);
+                let nset: BTreeSet<String> = snap.proposals().set().iter().map(id_hex).collect();
+                let ngap: BTreeSet<String> = snap.proposals().gap().iter().map(id_hex).collect();
+                let mset: BTreeSet<String> = mset.iter().map(id_hex).collect();
+                let mgap: BTreeSet<String> = mgap.iter().map(id_hex).collect();
+                r.c20.eval();
+                r.c20.count("obs.views_checked");
+                if nset != mset {
+                    r.c20.violation("proposal_view.set_differs_from_window@node_with_pool", format!("tip {}: node set {:?} model {:?}", hx(&st), nset, mset), w(json!({})));
+                }
+                if ngap != mgap {
+                    r.c20.violation("proposal_view.gap_differs_from_window@node_with_pool", format!("tip {}: node gap {:?} model {:?}", hx(&st), ngap, mgap), w(json!({})));
+                }
+            }
         }
         if cur != tip {
             r.c12.violation("reorg_notification.missing_for_tip_change", format!("pool notifications end at {} but the tip is {}", hx(&cur), hx(&tip)), w(json!({})));
